@@ -11,10 +11,21 @@ O_FAIL = '{}::raises.exactly_on_overflow_or_shift_above_256'
 O_NONE = '{}::ensures.None_exactly_where_Michelson_says'
 O_SUPPORT = '{}::requires.operand_types_of_the_reference_accepted'
 O_ROUNDTRIP = '{}::ensures.number_bytes_number_roundtrip'
+O_REJECT = '{}::raises.on_operand_types_outside_the_reference_table'
+
+# Contexts of the operands (widening: the operands used to be always two fresh PUSHes on an otherwise empty stack):
+#   below  a sentinel string lies under the operands and must stay there, alone and unchanged
+#   dup    `PUSH a ; DUP ; OP`: both operands are copies of one value
+#   annot  the first operand is taken out of a pair component with %field and :type annotations (its run-time class keeps
+#          them), the second out of the plain component: `PUSH (pair (ta %fld :ty) tb) (Pair a b) ; UNPAIR ; OP`
+CONTEXTS = ('below', 'dup', 'annot')
+SENTINEL = 'below'
 
 def mlit(t, v):
     if t == 'bytes':
         return {'bytes': v.hex()}
+    if t == 'string':
+        return {'string': v}
     if t == 'bool':
         return {'prim': 'True' if v else 'False'}
     return {'int': str(v)}
@@ -43,6 +54,8 @@ def execute(instrs, text=None):
 def lit(t, v):
     if t == 'bytes':
         return '0x' + v.hex()
+    if t == 'string':
+        return f'"{v}"'
     if t == 'bool':
         return 'True' if v else 'False'
     return str(v)
@@ -86,15 +99,41 @@ def val_of(ty, m):
     return int(m['int'])
 
 
-def run(prim, ops, via_text=False):
+def _push(t, v):
+    return {'prim': 'PUSH', 'args': [{'prim': t}, mlit(t, v)]}
+
+
+def program(prim, ops, ctx=None):
+    """-> (Micheline instruction list, text)"""
+    if ctx == 'annot':
+        ta, a = ops[0]
+        tb, b = ops[1] if len(ops) > 1 else ('unit', None)
+        ty = {'prim': 'pair', 'args': [{'prim': ta, 'annots': ['%fld', ':ty']}, {'prim': tb}]}
+        val = {'prim': 'Pair', 'args': [mlit(ta, a), mlit(tb, b) if len(ops) > 1 else {'prim': 'Unit'}]}
+        take = 'UNPAIR' if len(ops) > 1 else 'CAR'
+        text = f'PUSH (pair ({ta} %fld :ty) {tb}) (Pair {lit(ta, a)} {lit(tb, b) if len(ops) > 1 else "Unit"}) ; {take} ; {prim}'
+        return [{'prim': 'PUSH', 'args': [ty, val]}, {'prim': take}, {'prim': prim}], text
+    if ctx == 'dup':
+        assert len(ops) == 2 and ops[0] == ops[1]
+        return [_push(*ops[0]), {'prim': 'DUP'}, {'prim': prim}], f'PUSH {ops[0][0]} {lit(*ops[0])} ; DUP ; {prim}'
+    pre, pretext = [], ''
+    if ctx == 'below':
+        pre, pretext = [{'prim': 'PUSH', 'args': [{'prim': 'string'}, {'string': SENTINEL}]}], f'PUSH string "{SENTINEL}" ; '
+    code = pretext + ' ; '.join(f'PUSH {t} {lit(t, v)}' for t, v in reversed(ops)) + f' ; {prim}'
+    return pre + [_push(t, v) for t, v in reversed(ops)] + [{'prim': prim}], code
+
+
+def run(prim, ops, via_text=False, ctx=None):
     """-> ('ok', ty, val) | ('error', text) ; ops python values, top first"""
-    code = ' ; '.join(f'PUSH {t} {lit(t, v)}' for t, v in reversed(ops)) + f' ; {prim}'
-    instrs = [{'prim': 'PUSH', 'args': [{'prim': t}, mlit(t, v)]} for t, v in reversed(ops)] + [{'prim': prim}]
+    instrs, code = program(prim, ops, ctx)
     err, items = execute(instrs, code if via_text else None)
     if err is not None:
         return ('error', f'{type(err).__name__}{getattr(err, "args", "")!s:.200}'), code
-    if len(items) != 1:
+    depth = 2 if ctx == 'below' else 1
+    if len(items) != depth:
         return ('ok', 'stack-depth-%d' % len(items), None), code
+    if ctx == 'below' and not (type(items[1]).prim == 'string' and str(items[1]) == SENTINEL):
+        return ('ok', 'stack-below-the-operands-changed', None), code
     it = items[0]
     ty = ty_of(type(it).as_micheline_expr())
     return ('ok', ty, val_of(ty, it.to_micheline_value(mode='optimized'))), code
@@ -136,15 +175,33 @@ def shape(prim, ops, want):
     return ''
 
 
+def eval_illtyped(case):
+    """operand types OUTSIDE the reference's dispatch table: the instruction must refuse them (any exception = refusal)"""
+    prim = case['prim']
+    ops = [(t, dec(t, v)) for t, v in case['ops']]
+    ts = ':'.join(t for t, _ in ops)
+    assert A.spec(prim, ops) == ('illtyped',), case
+    try:
+        got, code = run(prim, ops)
+    except Exception as e:  # noqa  a refusal that is not a MichelsonRuntimeError is still a refusal
+        got, code = ('error', type(e).__name__), program(prim, ops)[1]
+    return [_res(O_REJECT.format(prim), got[0] == 'error',
+                 f'`{code}` is accepted -> {tstr(got[1]) if got[0] == "ok" and not isinstance(got[1], str) else got[1]}: {vstr(got[2]) if got[0] == "ok" else ""}; '
+                 f'the Michelson reference has no {prim} on {ts} (ill-typed)', f'{prim} {ts} ill-typed-accepted')]
+
+
 def eval_case(case):
+    if case.get('ill'):
+        return eval_illtyped(case)
     prim = case['prim']
     ops = [(t, dec(t, v)) for t, v in case['ops']]
     ts = ':'.join(t for t, _ in ops)
     want = A.spec(prim, ops)
     assert want[0] != 'illtyped', case
-    got, code = run(prim, ops, via_text=bool(case.get('text')))
+    ctx = case.get('ctx')
+    got, code = run(prim, ops, via_text=bool(case.get('text')), ctx=ctx)
     sh = shape(prim, ops, want)
-    tag = f'{prim} {ts}' + (f' {sh}' if sh else '')
+    tag = f'{prim} {ts}' + (f' {sh}' if sh else '') + (f' ctx={ctx}' if ctx else '')
     out = []
     unsupported = got[0] == 'error' and ('unexpected types' in got[1] or ('expected' in got[1] and ', got ' in got[1] and 'natural number' not in got[1]))
     if unsupported:
@@ -229,6 +286,62 @@ def values_for(t, tier, role='any'):
     raise KeyError(t)
 
 
+CTX_VALUES = {
+    'int': [0, 1, -1, 127, 128, -128, -129, 255, 256, 2 ** 63, -2 ** 63 - 1],
+    'nat': [0, 1, 127, 128, 255, 256, 2 ** 63, 2 ** 64],
+    'mutez': [0, 1, 2 ** 62, 2 ** 63 - 1],
+    'timestamp': [0, -1, 2 ** 31, 2 ** 63],
+    'bytes': [b'', b'\x00', b'\x80', b'\x00\x80', b'\xff\x7f', bytes.fromhex('123456')],
+    'bool': [False, True],
+}
+
+# Operand-type universe for the "no row beyond the reference table" clause (BLS types: C21).
+UNIVERSE = {'int': 5, 'nat': 5, 'mutez': 5, 'timestamp': 5, 'bool': True, 'bytes': b'\x05', 'string': 'x'}
+
+# CANDIDATE_DEFECT (found by the widening on the UNCHANGED tree, reproduced natively, reported to the lead, NOT registered):
+# pytezos accepts these operand types although the Michelson reference does not type them -
+#   AND nat:int (top nat, second int; only int:nat exists)            PUSH int 5 ; PUSH nat 6 ; AND  -> nat 4
+#   BYTES mutez, BYTES timestamp (assert_type_in uses issubclass; MutezType < NatType < IntType, TimestampType < IntType)
+#   INT mutez (same reason)
+# They stay out of the registered enumeration while RUN_CANDIDATE_DEFECTS is False; every other ill-typed combination is checked.
+RUN_CANDIDATE_DEFECTS = False
+CANDIDATE_DEFECT = {('AND', ('nat', 'int')), ('BYTES', ('mutez',)), ('BYTES', ('timestamp',)), ('INT', ('mutez',))}
+
+
+def illtyped_cases():
+    import itertools
+    out = []
+    for prim, combos in A.ALLOWED.items():
+        arity = len(combos[0])
+        for ts in itertools.product(UNIVERSE, repeat=arity):
+            if ts in combos or ((prim, ts) in CANDIDATE_DEFECT and not RUN_CANDIDATE_DEFECTS):
+                continue
+            assert A.spec(prim, [(t, UNIVERSE[t]) for t in ts]) == ('illtyped',), (prim, ts)
+            out.append(dict(prim=prim, ops=[[t, enc(t, UNIVERSE[t])] for t in ts], ill=1))
+    return out
+
+
+def context_cases():
+    out = []
+    for prim, combos in A.ALLOWED.items():
+        for ts in combos:
+            if len(ts) == 1:
+                for ctx in ('below', 'annot'):
+                    for a in CTX_VALUES[ts[0]]:
+                        out.append(dict(prim=prim, ops=[[ts[0], enc(ts[0], a)]], ctx=ctx))
+                continue
+            va = pick(CTX_VALUES[ts[0]], 4)
+            vb = [0, 1, 256, 257] if prim in ('LSL', 'LSR') else pick(CTX_VALUES[ts[1]], 4)
+            for ctx in ('below', 'annot'):
+                for a in va:
+                    for b in vb:
+                        out.append(dict(prim=prim, ops=[[ts[0], enc(ts[0], a)], [ts[1], enc(ts[1], b)]], ctx=ctx))
+            if ts[0] == ts[1]:
+                for a in CTX_VALUES[ts[0]]:
+                    out.append(dict(prim=prim, ops=[[ts[0], enc(ts[0], a)], [ts[0], enc(ts[0], a)]], ctx='dup'))
+    return out
+
+
 def enumerate_cases(tier, seed=0):
     cases = []
     for prim, ops, _ in A.RECORDED:
@@ -247,6 +360,8 @@ def enumerate_cases(tier, seed=0):
             for a in values_for(ts[0], tier):
                 for b in values_for(ts[1], tier):
                     cases.append(dict(prim=prim, ops=[[ts[0], enc(ts[0], a)], [ts[1], enc(ts[1], b)]]))
+    cases += context_cases()
+    cases += illtyped_cases()
     seen, out = set(), []
     for c in cases:
         k = repr(c)
